@@ -145,7 +145,7 @@ structure Proc where
 
 instance : GoZero Proc := ⟨⟨false⟩⟩
 
-/-! ### The printer (`lib/syntax/printer`): `fmt.Fprintf` with widths, `strings.Join`, `utf8.RuneCountInString`, `io.Writer` -/
+/-! ### The printer (`lib/syntax/printer`): `fmt.Fprintf` with widths, `strings.Join`, `strings.Repeat`, `utf8.RuneCountInString`, `io.Writer` -/
 
 /-- `utf8.RuneCountInString`: the number of decoding steps (an invalid byte counts as one rune) -/
 def RuneCountInString (s : GoString) : Int := ((decodeAll s).length : Int)
@@ -154,14 +154,10 @@ namespace Fmt
 /-- `fmt`'s `writePadding(n)`: `n` spaces, nothing for `n ≤ 0` -/
 def pad (n : Int) : GoString := List.replicate n.toNat 0x20
 /-- `%Ns` (`minus = false`: padded on the left) and `%-Ns` (`minus = true`: padded on the right) of a string, for a width `N ≥ 0`
-written in the format: `fmt.padString` pads to `N` **runes** (`N - utf8.RuneCountInString(s)` spaces; none when the string is longer) -/
+written in the format: `fmt.padString` pads to `N` **runes** (`N - utf8.RuneCountInString(s)` spaces; none when the string is longer).
+A width taken from an operand (`%*s`) has no meaning here: `fmt` rejects widths above `10^6` with `%!(BADWIDTH)`, and knut pads by hand. -/
 def sW (minus : Bool) (wid : Int) (x : GoString) : GoString :=
   if minus then x ++ pad (wid - RuneCountInString x) else pad (wid - RuneCountInString x) ++ x
-/-- `%*s` / `%-*s`: the width is an `int` operand.  `fmt` (print.go, `intFromArg`/`tooLarge`) rejects a width above `10^6` in magnitude:
-it prints `%!(BADWIDTH)` and formats the operand without a width; a negative width means left-justify with its absolute value. -/
-def sStar (minus : Bool) (wid : Int) (x : GoString) : GoString :=
-  if wid > 1000000 ∨ wid < -1000000 then lit "%!(BADWIDTH)" ++ x
-  else if wid < 0 then sW true (-wid) x else sW minus wid x
 end Fmt
 
 namespace Strings
@@ -170,6 +166,10 @@ def Join : List GoString → GoString → GoString
   | [], _ => []
   | [a], _ => a
   | a :: b :: rest, sep => a ++ sep ++ Join (b :: rest) sep
+/-- `strings.Repeat(s, count)`: a negative count panics (the overflow check of the real function concerns lengths above `2^63`,
+which are outside the model of `int`) -/
+def Repeat (s : GoString) (count : Int) : Outcome GoString :=
+  if count < 0 then .panic "strings: negative Repeat count" else .ok (List.replicate count.toNat s).flatten
 end Strings
 
 /-- an `io.Writer`: the **bytes written so far**.  This is an in-memory buffer (`bytes.Buffer`, which `formatFile` and `infer` hand to
